@@ -387,3 +387,98 @@ pub fn gen_eval(seed: u64, n: usize, maxlen: i32) -> Vec<Value> {
     out.truncate(n);
     out
 }
+
+// ---------------------------------------------------------------------------------------------------------------
+// random built-in calls with larger, well-typed (and sometimes ill-typed) arguments
+fn rstr(g: &mut G) -> String {
+    let pool: Vec<char> = "ab\u{e9}\u{ffff}\u{1f600} z\u{10000}\u{7f}A".chars().collect();
+    let n = g.rng.gen_range(0..5);
+    (0..n).map(|_| pool[g.rng.gen_range(0..pool.len())]).collect()
+}
+fn rnum(g: &mut G) -> Value {
+    if g.rng.gen_bool(0.25) {
+        json!({"t":"num","p":2 * g.rng.gen_range(-9i64..10) + 1,"q":2})
+    } else {
+        json!({"t":"num","p":g.rng.gen_range(-20i64..40),"q":1})
+    }
+}
+fn tstr(s: &str) -> Value {
+    json!({"t":"str","s":cps(s)})
+}
+fn tobj(mut kvs: Vec<(String, Value)>) -> Value {
+    kvs.sort_by(|a, b| a.0.cmp(&b.0));
+    kvs.dedup_by(|a, b| a.0 == b.0);
+    json!({"t":"obj","o":kvs.into_iter().map(|(k, v)| json!({"k":cps(&k),"v":v})).collect::<Vec<_>>()})
+}
+
+pub fn gen_calls(seed: u64, n: usize) -> Vec<Value> {
+    let mut g = G::new(seed ^ 0xca11);
+    let mut out = vec![];
+    let unary_arr = ["sort", "max", "min", "sum", "avg", "reverse", "length", "to_array", "to_string", "type"];
+    let by = ["sort_by", "max_by", "min_by"];
+    while out.len() < n {
+        let shape = g.rng.gen_range(0..10);
+        let len = if g.rng.gen_bool(0.3) { g.rng.gen_range(20..200) } else { g.rng.gen_range(0..12) };
+        let (text, doc): (String, Value) = match shape {
+            0 | 1 => {
+                // arrays of numbers or strings through the array functions
+                let strs = g.rng.gen_bool(0.4);
+                let a: Vec<Value> = (0..len).map(|_| if strs { tstr(&rstr(&mut g)) } else { rnum(&mut g) }).collect();
+                let f = unary_arr[g.rng.gen_range(0..unary_arr.len())];
+                (format!("{}(a)", f), tobj(vec![("a".into(), json!({"t":"arr","a":a}))]))
+            }
+            2 | 3 | 4 => {
+                // by-functions over records with few distinct keys (ties) and distinguishable payloads
+                let nk = g.rng.gen_range(1..5);
+                let strs = g.rng.gen_bool(0.3);
+                let keys: Vec<Value> = (0..nk).map(|_| if strs { tstr(&rstr(&mut g)) } else { rnum(&mut g) }).collect();
+                let a: Vec<Value> = (0..len)
+                    .map(|i| tobj(vec![("k".into(), keys[g.rng.gen_range(0..keys.len())].clone()), ("i".into(), json!({"t":"num","p":i,"q":1}))]))
+                    .collect();
+                let f = by[g.rng.gen_range(0..3)];
+                let e = if g.rng.gen_bool(0.8) { "&k" } else { "&not_null(k, `0`)" };
+                let wrap = g.rng.gen_range(0..4);
+                let call = format!("{}(a, {})", f, e);
+                let text = match wrap {
+                    0 => format!("{}[*].i", if f == "sort_by" { call } else { format!("[{}]", call) }),
+                    1 => format!("map(&i, {})", if f == "sort_by" { call } else { format!("to_array({})", call) }),
+                    _ => call,
+                };
+                (text, tobj(vec![("a".into(), json!({"t":"arr","a":a}))]))
+            }
+            5 => {
+                let s1 = rstr(&mut g);
+                let s2 = rstr(&mut g);
+                let f = ["contains", "starts_with", "ends_with"][g.rng.gen_range(0..3)];
+                (format!("{}(a, b)", f), tobj(vec![("a".into(), tstr(&format!("{}{}", s1, s2))), ("b".into(), tstr(if g.rng.gen_bool(0.5) { &s1 } else { &s2 }))]))
+            }
+            6 => {
+                let a: Vec<Value> = (0..len.min(30)).map(|_| tstr(&rstr(&mut g))).collect();
+                ("join(g, a)".into(), tobj(vec![("a".into(), json!({"t":"arr","a":a})), ("g".into(), tstr(&rstr(&mut g)))]))
+            }
+            7 => {
+                let mk = |g: &mut G| -> Value {
+                    let n = g.rng.gen_range(0..12);
+                    tobj((0..n).map(|_| (rstr(g), rnum(g))).collect())
+                };
+                let (a, b, c) = (mk(&mut g), mk(&mut g), mk(&mut g));
+                let t = ["merge(a, b)", "merge(a, b, c)", "keys(merge(a, b))", "values(merge(c, a))", "length(merge(a, c))", "keys(a)", "values(b)"];
+                (t[g.rng.gen_range(0..t.len())].into(), tobj(vec![("a".into(), a), ("b".into(), b), ("c".into(), c)]))
+            }
+            8 => {
+                // unary functions inside a projection and inside another call
+                let a: Vec<Value> = (0..len.min(20)).map(|_| rand_doc(&mut g, 2)).collect();
+                let f = ["type", "to_array", "to_string", "not_null", "to_number", "length", "abs", "keys"][g.rng.gen_range(0..8)];
+                let t = if g.rng.gen_bool(0.5) { format!("a[*].{}(@)", f) } else { format!("map(&{}(@), a)", f) };
+                (t, tobj(vec![("a".into(), json!({"t":"arr","a":a}))]))
+            }
+            _ => {
+                let x = rnum(&mut g);
+                let f = ["abs", "ceil", "floor", "to_string", "to_number", "type"][g.rng.gen_range(0..6)];
+                (format!("{}(a)", f), tobj(vec![("a".into(), x)]))
+            }
+        };
+        out.push(json!({"e":"val","text":cps(&text),"doc":doc}));
+    }
+    out
+}
